@@ -13,9 +13,10 @@ os/exec's business (go1.23 `Cmd.Wait` / `awaitGoroutines`, read by hand — trus
   child is dead, or — when a grandchild that survived the kill still holds the pipe — when the descriptors are closed
   `WaitDelay` after the death. The copy of standard INPUT exists when `cmd.Stdin` is not an `*os.File`; the commands of
   `system()` and `cmd | getline` get `cmd.Stdin = p.stdin` (regenerated fact `cmdStdinWrites`), i.e. `Config.Stdin`.
-  That goroutine ends when its pending `Read` of `Config.Stdin` returns (the following write to the dead child's pipe
-  fails). `Wait` awaits it without limit: closing the descriptors after `WaitDelay` does not interrupt a `Read` of the
-  caller's reader.
+  That goroutine ends when a `Read` of `Config.Stdin` returns and the following write to the pipe fails: the first Read
+  that returns after the child's death — or, when a surviving grandchild still holds the pipe's read end, the first that
+  returns after the descriptors were closed, `WaitDelay` later. `Wait` awaits it without limit: closing the descriptors
+  does not interrupt a `Read` of the caller's reader.
 
 Time is in milliseconds. Dispatches take no time in this model (they are counted, as in `GoawkModel.C15`); only waits
 move the clock.
@@ -28,7 +29,7 @@ abbrev waitDelay : Nat := Generated.C15Cmds.waitDelayMs
 /-- the goroutine that copies `Config.Stdin` to the command -/
 inductive StdinCopy
   | none                   -- there is none: `Config.Stdin` is an `*os.File` (the child gets the descriptor), or the command is a `print | cmd`
-  | yieldsAfter (d : Nat)  -- its pending Read returns (data, EOF or error) `d` ms after the child is dead, then it ends
+  | yieldsAfter (d : Nat)  -- a Read of the reader returns (data, EOF or error) within `d` ms; the goroutine ends with the first Read that returns after its pipe was torn down
   | blocked                -- its Read never returns: an io.Pipe nobody writes to, an idle connection (finding G15-1)
   deriving DecidableEq, Repr
 
@@ -64,7 +65,7 @@ def waitReturns (w : Cmd) (start : Nat) (τ : Option Nat) : Option Nat :=
     let outEnd := if w.orphan then dead + waitDelay else dead
     match w.copy with
     | .none => some outEnd
-    | .yieldsAfter d => some (max outEnd (dead + d))
+    | .yieldsAfter d => some (if w.orphan then dead + waitDelay + d else dead + d)
     | .blocked => none
 
 /-- a step of a run: a dispatch, or a dispatch that waits for a command -/
